@@ -192,7 +192,9 @@ Definition variant_for (cpu flags : N) (a : arch_init) : string := select_tier a
    jobs through the very same manager (so next_job is not 0 afterwards).  The self test is a
    parameter here: C20 models it; C15 only needs that it is a function of the state. *)
 Definition init_public (selftest : mgr -> mgr) (cpu : N) (a : arch_init) (s : mgr) : mgr :=
-  selftest (arch_init_run cpu a true s).
+  let s1 := arch_init_run cpu a true s in
+  if ai_guard a && negb (errno (m_ring s1) =? 0)%Z then s1    (* nothing was set up: keep the error, skip the self test *)
+  else selftest s1.
 
 (* ------------------------------------------------------------------ scheduling state *)
 Definition agree_on (P : N -> bool) (f g : img) : Prop := forall a, P a = true -> f a = g a.
